@@ -2,20 +2,133 @@
 
 Oracle: metamorphic -- two real runs (original document; permuted and
 blank-node-relabelled document) must report the same evidence; the chosen
-constraints must be equal whenever no two candidates tie."""
+constraints must be equal whenever no two candidates tie.
+
+The renaming draws the new labels from the whole BLANK_NODE_LABEL grammar of
+N-Triples (vp.bnlabels: inner '.', '-', ':', non-ASCII letters, combining
+marks, labels that differ only after a '.', labels that are proper prefixes
+of each other, labels of several hundred characters, labels differing in
+case only) -- the label language of Spec/NtSyntax.valid_label, on which the
+reader is proved right (C06) for the layout of these documents (' .' closes
+every statement, no comments; the one excluded layout, C06-F7r `_:b2.#c`,
+does not occur).  Every third document is made blank-node heavy (instances
+and values turned into blank nodes), so that the labels occur as subject, as
+object directly before the closing ' .', typed and untyped.  One case in
+four reads the renamed document a second time from a FILE (graph_file_input;
+kind "shexc_ntfile") and judges that run against the original as well."""
 import itertools
+import os
 import random
+import signal
+import warnings
 
-from vp import pipeprops, pipespec, pipe
+from vp import bnlabels, core, pipeprops, pipespec, pipe
 
 
-def relabel(ts, r):
-    bn = sorted({x[1] for s, p, o in ts for x in (s, o) if x[0] == "B"})
-    names = ["_:z%d" % i for i in range(len(bn))]
+def blank_nodes(ts):
+    return sorted({x[1] for s, p, o in ts for x in (s, o) if x[0] == "B"})
+
+
+def relabel(ts, r, kind=None):
+    """-> (renamed triples, family, labels): an injective renaming of the blank nodes into one label family"""
+    bn = blank_nodes(ts)
+    fam, names = bnlabels.family(r, len(bn), kind) if bn else ("none", [])
     r.shuffle(names)
     m = dict(zip(bn, names))
     f = lambda x: ("B", m[x[1]]) + tuple(x[2:]) if x[0] == "B" else x
+    return [(f(s), p, f(o)) for s, p, o in ts], fam, names
+
+
+def bnodify(ts, r, general, tau=pipe.RDF_TYPE):
+    """turn IRI nodes (never classes or predicates) into blank nodes: node by node on general graphs, class by
+    class on schema-consistent ones (the neighbours of a (class, property) stay of one kind)"""
+    classes = {o[1] for s, p, o in ts if p == tau and o[0] != "L"}
+    cls_of = {}
+    for s, p, o in ts:
+        if p == tau and o[0] != "L":
+            cls_of.setdefault(s, []).append(o[1])
+    nodes = sorted({x for s, p, o in ts for x in (s, o) if x[0] == "I" and x[1] not in classes})
+    if general:
+        chosen = [n for n in nodes if r.random() < 0.6]
+    else:
+        cs = [c for c in sorted(classes) if r.random() < 0.6]
+        chosen = [n for n in nodes if (cls_of.get(n) and all(c in cs for c in cls_of[n]))
+                  or (not cls_of.get(n) and r.random() < 0.5)]
+    taken = set(blank_nodes(ts))
+    m = {}
+    for n in chosen:
+        k = len(m)
+        while "_:g%d" % k in taken:
+            k += 1000
+        m[n] = ("B", "_:g%d" % k)
+        taken.add("_:g%d" % k)
+    f = lambda x: m.get(tuple(x[:2]), x) if x[0] == "I" else x
     return [(f(s), p, f(o)) for s, p, o in ts]
+
+
+def bnode_stem_classes(ts, cfg):
+    """C09-F3, computed from the data: with detect_minimal_iri, the classes all of whose instances are blank nodes
+    whose labels share a prefix that reaches a ':' and is at least three characters long ('_:' included) -- the
+    longest-common-prefix fold of the profiler runs over blank-node labels as if they were IRIs and the cut at
+    the last of ':', '/', '#' leaves a 'stem' (labels hold no '/' or '#')"""
+    if not cfg.get("detect_minimal_iri"):
+        return {}
+    by = {}
+    for i, cs in pipespec.spec_instances(ts, cfg).items():
+        for c in cs:
+            by.setdefault(c, []).append(i)
+    out = {}
+    for c, ids in by.items():
+        if all(i.startswith("_:") for i in ids):
+            cut = os.path.commonprefix(ids)
+            cut = cut[:cut.rfind(":") + 1]
+            if len(cut) >= 3:
+                out[c] = cut
+    return out
+
+
+# ---- the renamed document once more, from a file (the line reader of graph_file_input, same tokeniser)
+
+_FILE_DIR = os.path.join(core.WORK, "c09")
+_orig_impl_other = pipe.impl_other
+
+
+def impl_ntfile(ts, cfg, timeout=10.0):
+    from shexer.shaper import Shaper
+    warnings.filterwarnings("ignore")
+    os.makedirs(_FILE_DIR, exist_ok=True)
+    path = os.path.join(_FILE_DIR, "doc_%d.nt" % os.getpid())
+    with open(path, "w", encoding="utf-8", newline="") as f:
+        f.write(pipe.nt_doc(ts))
+    k, m = cfg["thr"]
+    old = signal.signal(signal.SIGALRM, pipe._alarm)
+    signal.setitimer(signal.ITIMER_REAL, timeout)
+    try:
+        sh = Shaper(graph_file_input=path, **pipe.shaper_kwargs(cfg))
+        return ("ok", sh.shex_graph(string_output=True, acceptance_threshold=(k / m)))
+    except pipe.Hang:
+        return ("err", "Hang", "")
+    except Exception as e:  # noqa: BLE001 - the observable is the exception class
+        import traceback
+        frames = [f for f in traceback.extract_tb(e.__traceback__) if "/shexer/" in f.filename]
+        where = "%s:%d:%s" % (frames[-1].filename.split("/shexer/")[-1], frames[-1].lineno, frames[-1].name) if frames else ""
+        return ("err", type(e).__name__, where)
+    finally:
+        signal.setitimer(signal.ITIMER_REAL, 0)
+        signal.signal(signal.SIGALRM, old)
+        try:
+            os.remove(path)
+        except OSError:
+            pass
+
+
+def _impl_other(ts, cfg, kind, timeout=10.0):
+    if kind == "shexc_ntfile":
+        return impl_ntfile(ts, cfg, timeout)
+    return _orig_impl_other(ts, cfg, kind, timeout)
+
+
+pipe.impl_other = _impl_other        # vp.pipeprops / vp.pipe are not edited (as vp.pipemap.install does)
 
 
 class Spec(pipeprops.PropSpec):
@@ -23,23 +136,55 @@ class Spec(pipeprops.PropSpec):
     theorems = "C09_occ_permutation_invariant, C09_profile_counts_permutation_invariant (Props/C09.v)"
     projection = staticmethod(pipeprops.proj_figures)
     projection_name = "per shape label, instance count, constraints with cardinalities and all figures"
-    rule = ("graphs as C01 (general and schema-consistent) x a random permutation of the statements composed with a "
-            "random injective renaming of blank nodes x switch assignments round-robin; exhaustive over all "
-            "permutations for documents of <= 5 statements (thorough: <= 6); non-trivial = some class with >= 2 "
-            "instances and some non-typing triple")
+    rule = ("graphs as C01 (general and schema-consistent; every third one blank-node heavy: IRI nodes turned into "
+            "blank nodes) x a random permutation of the statements composed with a random injective renaming of "
+            "the blank nodes into one family of the BLANK_NODE_LABEL grammar (plain / siblings differing after a "
+            "'.', '-', ':' or a non-ASCII character / proper-prefix chains / several hundred characters / case "
+            "only / uniform over the grammar) x switch assignments round-robin; one case in four reads the renamed "
+            "document from a file as well; exhaustive over all permutations for documents of <= 5 statements "
+            "(thorough: <= 6); non-trivial = some class with >= 2 instances and some non-typing triple")
+
+    def __init__(self):
+        self.stats = {"families": {}, "features": {}, "cases_with_blank_nodes": 0, "blank_node_heavy": 0,
+                      "file_runs": 0, "renamed_subjects": 0, "renamed_objects": 0}
+
+    def _count(self, fam, names, ts2, heavy, with_file):
+        st = self.stats
+        st["families"][fam] = st["families"].get(fam, 0) + 1
+        for t in bnlabels.feature_tags(names):
+            st["features"][t] = st["features"].get(t, 0) + 1
+        st["cases_with_blank_nodes"] += bool(names)
+        st["blank_node_heavy"] += bool(heavy)
+        st["file_runs"] += bool(with_file)
+        st["renamed_subjects"] += sum(1 for s, p, o in ts2 if s[0] == "B")
+        st["renamed_objects"] += sum(1 for s, p, o in ts2 if o[0] == "B")
+
+    def domain_note(self):
+        return ("blank-node labels: Spec/NtSyntax.valid_label (C06's label language), statements closed by ' .', no "
+                "comments (C06_dom_fx2 holds: C06-F7r needs a comment glued to the dot); renamings generated: %r"
+                % (self.stats,))
 
     def gen_cases(self, tier, rnd):
         n = 20000 if tier == "thorough" else 1500
         cases = []
         for i in range(n):
             r = random.Random(rnd.getrandbits(48))
-            ts = pipe.gen_graph(r, general=(i % 2 == 0))
+            general = (i % 2 == 0)
+            ts = pipe.gen_graph(r, general=general)
+            heavy = (i % 3 == 2)
+            if heavy:
+                ts = bnodify(ts, r, general)
             cfg = pipeprops.random_cfg(r, ts, i)
             cfg["cap"] = -1          # the cap keeps the first k instances in document order (C16): not order-invariant
             cfg["detect_minimal_iri"] = (i % 2 == 1)   # the stem is part of "the same shapes" (implementation side only)
-            ts2 = relabel(ts, r)
+            ts2, fam, names = relabel(ts, r)
             r.shuffle(ts2)
-            cases.append({"runs": [(ts, cfg), (ts2, cfg)], "meta": {"kind": "random"}})
+            runs = [(ts, cfg), (ts2, cfg)]
+            with_file = bool(names) and i % 4 == 3
+            if with_file:
+                runs.append((ts2, cfg, "shexc_ntfile"))
+            self._count(fam, names, ts2, heavy, with_file)
+            cases.append({"runs": runs, "meta": {"kind": "random", "family": fam, "blank_node_heavy": heavy}})
         # exhaustive permutations of tiny documents
         lim = 6 if tier == "thorough" else 5
         ntiny = 12 if tier == "thorough" else 3
@@ -52,35 +197,53 @@ class Spec(pipeprops.PropSpec):
         return cases
 
     def oracle(self, case, impl):
-        if any(r[0] != "ok" for r in impl):
-            return [], 0
+        """every further run (renamed + permuted document; the same from a file) against the first one"""
+        if impl[0][0] != "ok":
+            # the original document is refused: so must be the others (nothing to compare otherwise)
+            fails = [(None, "run %d ends %r, the original document ends %r" % (k, r[:2], impl[0][:2]))
+                     for k, r in enumerate(impl) if k > 0 and r[:2] != impl[0][:2]]
+            return fails, 0
         ts, cfg = case["runs"][0][:2]
-        e1 = pipespec.evidence_of(pipe.canon(impl[0][1]), cfg["tau"])
-        e2 = pipespec.evidence_of(pipe.canon(impl[1][1]), cfg["tau"])
+        d1 = pipe.canon(impl[0][1])
+        e1 = pipespec.evidence_of(d1, cfg["tau"])
+        st1 = {sh["label"]: sh["stem"] for sh in d1["shapes"]}
         rcs = pipespec.tie_root_causes(ts, cfg)
         fails = []
-        st1 = {sh["label"]: sh["stem"] for sh in pipe.canon(impl[0][1])["shapes"]}
-        st2 = {sh["label"]: sh["stem"] for sh in pipe.canon(impl[1][1])["shapes"]}
-        if st1 != st2:
-            fails.append((None, "IRI stems differ: %r vs %r" % (st1, st2)))
-        if e1["labels"] != e2["labels"]:
-            fails.append((None, "shapes / instance counts differ: %r vs %r" % (e1["labels"], e2["labels"])))
-        if e1["keys"] != e2["keys"]:
-            fails.append((None, "constraint keys differ"))
-        if e1["facts"] != e2["facts"]:
-            d = sorted(set(e1["facts"].items()) ^ set(e2["facts"].items()))[:2]
-            rc = "rc_reference_tie" if "rc_reference_tie" in rcs else (
-                "rc_cardinality_tie" if "rc_cardinality_tie" in rcs and not cfg["keep_less_specific"] else None)
-            fails.append((rc, "reported fact sets differ: %r" % (d,)))
-        if e1["chosen"] != e2["chosen"]:
-            if "rc_kind_tie" in rcs or "rc_reference_tie" in rcs:
-                pass          # the property requires equal choices only when no candidate kinds tie
-            else:
-                d = [(k, sorted(e1["chosen"][k] ^ e2["chosen"].get(k, set()))[:2]) for k in e1["chosen"]
-                     if e1["chosen"][k] != e2["chosen"].get(k)]
-                rc = "rc_cardinality_tie" if "rc_cardinality_tie" in rcs and not cfg["keep_less_specific"] else None
-                fails.append((rc, "chosen constraints differ without a kind tie: %r" % (d[:1],)))
-        return fails, 1
+        for k in range(1, len(impl)):
+            tag = "" if k == 1 else " [run %d: %s]" % (k, (list(case["runs"][k][2:]) or ["shexc"])[0])
+            if impl[k][0] != "ok":
+                fails.append((None, "the renamed / permuted document ends %r, the original one is extracted%s"
+                              % (impl[k][1:], tag)))
+                continue
+            d2 = pipe.canon(impl[k][1])
+            e2 = pipespec.evidence_of(d2, cfg["tau"])
+            st2 = {sh["label"]: sh["stem"] for sh in d2["shapes"]}
+            if st1 != st2:
+                # C09-F3: a "stem" cut out of blank-node labels (root cause computed from the two documents; the
+                # stems that differ must all be label stems or absent, anything else stays unexplained)
+                bst = dict(bnode_stem_classes(ts, cfg), **bnode_stem_classes(case["runs"][k][0], cfg))
+                diff = [(st1.get(l), st2.get(l)) for l in set(st1) | set(st2) if st1.get(l) != st2.get(l)]
+                only_labels = all(x is None or x.startswith("_:") for pair in diff for x in pair)
+                rc = "rc_bnode_label_stem" if bst and only_labels and set(st1) == set(st2) else None
+                fails.append((rc, "IRI stems differ: %r vs %r%s" % (st1, st2, tag)))
+            if e1["labels"] != e2["labels"]:
+                fails.append((None, "shapes / instance counts differ: %r vs %r%s" % (e1["labels"], e2["labels"], tag)))
+            if e1["keys"] != e2["keys"]:
+                fails.append((None, "constraint keys differ" + tag))
+            if e1["facts"] != e2["facts"]:
+                d = sorted(set(e1["facts"].items()) ^ set(e2["facts"].items()))[:2]
+                rc = "rc_reference_tie" if "rc_reference_tie" in rcs else (
+                    "rc_cardinality_tie" if "rc_cardinality_tie" in rcs and not cfg["keep_less_specific"] else None)
+                fails.append((rc, "reported fact sets differ: %r%s" % (d, tag)))
+            if e1["chosen"] != e2["chosen"]:
+                if "rc_kind_tie" in rcs or "rc_reference_tie" in rcs:
+                    pass          # the property requires equal choices only when no candidate kinds tie
+                else:
+                    d = [(c, sorted(e1["chosen"][c] ^ e2["chosen"].get(c, set()))[:2]) for c in e1["chosen"]
+                         if e1["chosen"][c] != e2["chosen"].get(c)]
+                    rc = "rc_cardinality_tie" if "rc_cardinality_tie" in rcs and not cfg["keep_less_specific"] else None
+                    fails.append((rc, "chosen constraints differ without a kind tie: %r%s" % (d[:1], tag)))
+        return fails, len(impl) - 1
 
 
 def run(tier, seed, replay=None):
